@@ -15,6 +15,7 @@ import (
 	"encoding/json"
 	"fmt"
 	"io"
+	"io/fs"
 	"net"
 	"net/http"
 	"os"
@@ -76,6 +77,45 @@ type route struct {
 }
 
 // header class: one bad Authorization value.
+var proxyIdentityHeaders = []string{"X-Forwarded-User", "X-Remote-User", "Remote-User", "X-Auth-Request-User", "X-WEBAUTH-USER", "X-Authenticated-User", "X-Forwarded-Preferred-Username", "X-Auth-Token"}
+
+var reXHeader = regexp.MustCompile("\"([Xx]-[A-Za-z0-9]+(?:-[A-Za-z0-9]+)*)\"")
+
+// identityHeaders: the headers identity-aware proxies set, plus every X- header name written in the non-test Go
+// sources of the tree the binary is built from (at most 24 in all).
+var identityHeaders = sync.OnceValue(func() []string {
+	seen := map[string]bool{}
+	out := append([]string(nil), proxyIdentityHeaders...)
+	for _, h := range out {
+		seen[strings.ToLower(h)] = true
+	}
+	var found []string
+	for _, sub := range []string{"reader", "writer", "shared", "ctrl", "main.go"} {
+		filepath.WalkDir(filepath.Join(repoDir, sub), func(p string, d fs.DirEntry, err error) error {
+			if err != nil || d.IsDir() || !strings.HasSuffix(p, ".go") || strings.HasSuffix(p, "_test.go") || strings.HasSuffix(p, ".pb.go") {
+				return nil
+			}
+			b, err := os.ReadFile(p)
+			if err != nil {
+				return nil
+			}
+			for _, m := range reXHeader.FindAllStringSubmatch(string(b), -1) {
+				if !seen[strings.ToLower(m[1])] {
+					seen[strings.ToLower(m[1])] = true
+					found = append(found, m[1])
+				}
+			}
+			return nil
+		})
+	}
+	sort.Strings(found)
+	out = append(out, found...)
+	if len(out) > 24 {
+		out = out[:24]
+	}
+	return out
+})
+
 type hdrClass struct {
 	Name      string
 	Values    []string // nil = header absent; several = several Authorization lines
@@ -813,8 +853,27 @@ func runInstance(c *run.Ctx, bin string, cfg instCfg, flt *filter, st *stats, ro
 			m[k] = f
 		}
 	}
+	var spellSeq atomic.Int64
+	var idHeader [2]string // set by the identity-header pass: a header naming a user, as a proxy in front may set it
 	evalUnauth := func(t *target, hc hdrClass, cb combo, method string, registered bool) {
+		if idHeader[0] != "" {
+			hc.Name += "+" + idHeader[0]
+		}
 		u := url(t, false)
+		// one request in three writes the route's path as a client, a probe or a proxy may: with a trailing slash, or
+		// with a doubled leading slash. The router may take that for the route (then 401), clean it (redirect) or
+		// not know it (404/405) - but nothing may be served
+		respelled := ""
+		if !t.r.Prefix && !strings.HasSuffix(u, "/") {
+			switch int(spellSeq.Add(1)) % 6 {
+			case 1, 3:
+				u += "/"
+				respelled = "trailing-slash"
+			case 5:
+				u = in.base + "/" + strings.TrimPrefix(u, in.base)
+				respelled = "doubled-leading-slash"
+			}
+		}
 		ct, body := "", ""
 		extra := map[string]string{}
 		if method == "POST" || method == "PUT" {
@@ -825,6 +884,9 @@ func runInstance(c *run.Ctx, bin string, cfg instCfg, flt *filter, st *stats, ro
 			} else {
 				ct, body = "application/json", `{}`
 			}
+		}
+		if idHeader[0] != "" {
+			extra[idHeader[0]] = idHeader[1]
 		}
 		if method == "OPTIONS" {
 			extra["Access-Control-Request-Method"] = t.method
@@ -855,6 +917,9 @@ func runInstance(c *run.Ctx, bin string, cfg instCfg, flt *filter, st *stats, ro
 				"login": cfg.Login, "password": cfg.Pass, "cors": cfg.Cors}}
 		}
 		what := fmt.Sprintf("%s %s [%s, Authorization %s: %q, %s]", method, t.r.Template, tag, hc.Name, hc.Values, cb.Name)
+		if respelled != "" {
+			what = fmt.Sprintf("%s %s written with a %s (%s) [%s, Authorization %s: %q, %s]", method, t.r.Template, respelled, strings.TrimPrefix(u, in.base), tag, hc.Name, hc.Values, cb.Name)
+		}
 		if a.Err != "" {
 			if !in.alive() {
 				return // reported by the caller through died()
@@ -900,6 +965,11 @@ func runInstance(c *run.Ctx, bin string, cfg instCfg, flt *filter, st *stats, ro
 			// refuse it itself, but nothing may be served
 			okStatus = okStatus || a.Status == 400 || a.Status == 404 || a.Status == 405
 			c.Cover("status_options_probe", fmt.Sprintf("%s/%d", cfg.Mode, a.Status), 1)
+		}
+		if respelled != "" {
+			okStatus = okStatus || a.Status == 400 || a.Status == 404 || a.Status == 405 || a.Status == 301 || a.Status == 308
+			c.Cover("status_respelled_path", fmt.Sprintf("%s/%s/%d", cfg.Mode, respelled, a.Status), 1)
+			c.Floor("unauthorized requests with the path written another way (trailing slash, doubled slash)", 0, 1)
 		}
 		if a.BadGzip {
 			c.Undecided("undecodable gzip body")
@@ -968,6 +1038,30 @@ func runInstance(c *run.Ctx, bin string, cfg instCfg, flt *filter, st *stats, ro
 			}
 		}
 		if died("the unauthenticated matrix (last route " + t.r.Template + ")") {
+			return false
+		}
+	}
+	// identity headers: no Authorization, but a header that names the configured user - the ones proxies set, and
+	// every X- header the tree under test itself mentions (dictionary from the sources)
+	absent := hdrClass{"absent", nil, false}
+	for hi, h := range identityHeaders() {
+		for ti, t := range targets {
+			if (ti+hi)%4 != 0 && !strings.Contains(strings.ToLower(h), "user") && !strings.Contains(strings.ToLower(h), "auth") {
+				continue // headers that do not look like an identity: a quarter of the routes each
+			}
+			if !flt.match(cfg.Mode, cfg.Name, t.r.Template, t.method, "absent", "plain") {
+				continue
+			}
+			idHeader = [2]string{h, []string{cfg.Login, "1", "true"}[(ti+hi)%3]}
+			if strings.Contains(strings.ToLower(h), "user") {
+				idHeader[1] = cfg.Login
+			}
+			evalUnauth(t, absent, combos[0], t.method, true)
+			c.Floor("unauthorized requests carrying an identity header", 0, 1)
+			cells++
+		}
+		idHeader = [2]string{}
+		if died("the identity-header pass (" + h + ")") {
 			return false
 		}
 	}
